@@ -1,7 +1,7 @@
 #!/bin/bash
 # runs every check's quick (or given) tier, prints one line per check
 tier=${1:-quick}
-cd /verif
+cd "$(dirname "$0")/.."
 for i in $(seq -w 1 20); do
   p=C$i
   s=$(date +%s.%N)
